@@ -13,6 +13,7 @@ type Byz struct {
 	WrongSessionID   bool    // do not echo legacy_session_id (TLS 1.3)
 	CompressionMethod uint8  // compression method in ServerHello (0: null)
 	ForceALPN        string  // ALPN protocol in EncryptedExtensions / ServerHello ("" = normal)
+	KyberDraft       bool    // select the client's X25519Kyber768Draft00 share when it sent one
 	ForcePSK         bool    // announce a pre_shared_key selection although none was accepted
 	ForcePSKIndex    uint16  // selected_identity to announce when ForcePSK is set
 
